@@ -41,7 +41,7 @@ BASE = dict(DTs='{"out"}', MaxLen=4, MaxErr=0, Marks='{}', MaxMarks=0,
             Seps='{"nl", "ab", "tup", "re0", "reK"}', ReMax=REMAX,
             MaxBatch=2, MaxCalls=0, Proc='FALSE', Redir='FALSE',
             Policy='"any"', PrintAt=0, SearchBug='FALSE', CloseBug='FALSE',
-            ResumeFix='TRUE')
+            ResumeFix='TRUE', CollectFix='TRUE')
 DRAIN = dict(High=4, Low=1, Win=3, Sizes='{1, 2, 5}', MaxBuf=12, MaxOps=0,
              PrintAt=0, NoWait='FALSE', NoRaise='FALSE')
 
@@ -150,8 +150,9 @@ def jobs_for(tier):
                           Seps='{"nl", "ab", "reK"}')),
                  ['ChunkIndependent'], cases=True, workers=4, heap='6g'))
     sim = dict(MaxLen=5 if q else 6, MaxBatch=3, MaxCalls=8, PrintAt=24,
-               Windows='{1, 2, 3, 9}', Ns='{0, 1, 2, 3, 5, 6}')
-    n = 260 if q else 2500
+               Windows='{1, 2, 3, 9}',
+               Ns='{0, 1, 2, 6}' if q else '{0, 1, 2, 3, 5, 6, 7}')
+    n = 180 if q else 2500
     J.append(Job('sim_two', 'Stream', S(**dict(sim, DTs='{"out", "err"}',
                                                MaxErr=2)),
                  ['ChunkIndependent', 'NothingLost'], cases=True, sim=n,
@@ -201,6 +202,9 @@ def jobs_for(tier):
                  S(MaxLen=3, Ns='{1}', Seps='{"nl"}', ResumeFix='FALSE',
                    **marks), ['ChunkIndependent'], expect='ChunkIndependent',
                  workers=2))
+    J.append(Job('sens_collect', 'Stream',
+                 S(MaxLen=2, Windows='{1}', CollectFix='FALSE', **proc),
+                 ['NothingLost'], expect='NothingLost', workers=2))
     J.append(Job('sens_close', 'Stream',
                  S(MaxLen=2, Windows='{1}', CloseBug='TRUE', **proc),
                  ['ChunkIndependent'], expect='ChunkIndependent', workers=2))
@@ -212,14 +216,16 @@ def jobs_for(tier):
     small = dict(MaxLen=3, Windows='{1}', Ns='{1}', Seps='{"nl"}')
     J.append(Job('wit_escape', 'Stream', S(**small), ['NeverEscape'],
                  expect='NeverEscape', workers=2))
-    J.append(Job('wit_held', 'Stream', S(**small), ['NeverHeld'],
-                 expect='NeverHeld', workers=2))
+    if not q:
+        J.append(Job('wit_held', 'Stream', S(**small), ['NeverHeld'],
+                     expect='NeverHeld', workers=2))
     J.append(Job('wit_wait', 'Stream', S(MaxLen=2, Windows='{1}', **proc),
                  ['NeverWaitDone'], expect='NeverWaitDone', workers=2))
     J.append(Job('wit_drainwait', 'Drain', D(), ['NeverWaited'],
                  expect='NeverWaited', workers=1, heap='1g'))
-    J.append(Job('wit_drainraise', 'Drain', D(), ['NeverRaised'],
-                 expect='NeverRaised', workers=1, heap='1g'))
+    if not q:
+        J.append(Job('wit_drainraise', 'Drain', D(), ['NeverRaised'],
+                     expect='NeverRaised', workers=1, heap='1g'))
     return J
 
 
@@ -242,9 +248,16 @@ REGRESSIONS = [
        ['call', 'in', 'until', 0, 'ab', [['in', 'inc', ['a'], [], '-']]],
        ['call', 'in', 'read', 1, '-', [['in', 'exc', ['!brk'], [], '-']]],
        ['call', 'in', 'until', 0, 'ab', []],
-       ['emit', 'data', 'in', ['b']], ['run', []],
-       ['emit', 'eof', 'in', []],
-       ['run', [['in', 'inc', ['b'], [], '-']]]]]),
+       ['emit', 'data', 'in', ['b']],
+       ['run', [['in', 'inc', ['b'], [], '-']]],
+       ['emit', 'eof', 'in', []], ['run', []]]]),
+    ('collect_output() at the buffer limit, then read',
+     [2, [['a', 'b', 'n'], []],
+      [['emit', 'data', 'out', ['a', 'b']], ['run', []],
+       ['call', 'w', 'collect', 0, '-',
+        [['w', 'collect', ['a', 'b'], [], '-']]],
+       ['emit', 'data', 'out', ['n']], ['run', []],
+       ['call', 'out', 'read', 1, '-', [['out', 'ret', ['n'], [], '-']]]]]),
     ('separator spanning a chunk boundary, leftover kept',
      [9, [['n', 'a', 'b', 'a', 'b']],
       [['call', 'out', 'until', 0, 'ab', []],
@@ -293,7 +306,8 @@ class Replayer:
     def one(self, world, case, idx):
         ctx = self.ctx
         pure = world in ('tab_rfl9', 'tab_rfl2', 'tab_dfl', 'tab_marks',
-                         'sim_two', 'regress')
+                         'sim_two', 'regress') and \
+            not any(l[0] == 'call' and l[1] == 'w' for l in case[2])
         opts = dict(text=bool(idx % 2),
                     api='session' if pure and idx % 3 == 0 else 'process',
                     remax=REMAX)
@@ -321,7 +335,7 @@ class Replayer:
         for clause, spec, detail, stale in res['violations']:
             sig = {'module': 'Stream', 'clause': clause,
                    'call': spec[0] if spec else None, 'reader': res['role'],
-                   'stale_pause': stale}
+                   'context': stale}
             ctx.violation(sig, detail, replay={'kind': 'case', 'world': world,
                                                'case': case, 'opts': opts})
         if res['divergences'] and not res['violations']:
@@ -362,7 +376,7 @@ def do_replay_file(ctx, stream, path):
             for clause, spec, detail, stale in res['violations']:
                 ctx.violation({'module': 'Stream', 'clause': clause,
                                'call': spec[0] if spec else None,
-                               'reader': res['role'], 'stale_pause': stale},
+                               'reader': res['role'], 'context': stale},
                               detail, replay=rp)
         elif rp['kind'] == 'drain':
             res = stream.replay_drain(h, rp['case'])
@@ -370,6 +384,10 @@ def do_replay_file(ctx, stream, path):
             for clause, o, detail in res['violations']:
                 ctx.violation({'module': 'Drain', 'clause': clause, 'at': o},
                               detail, replay=rp)
+        elif rp['kind'] == 'stdin':
+            for clause, kind, detail in stream.replay_stdin(h, rp['scenario']):
+                ctx.violation({'module': 'Redirect', 'clause': clause,
+                               'source': kind}, detail, replay=rp)
         elif rp['kind'] == 'exit':
             for clause, mode, detail in stream.replay_exit(h, rp['scenario']):
                 ctx.violation({'module': 'ProcessExit', 'clause': clause,
@@ -415,12 +433,24 @@ def main(ctx):
                       sc['so'] + sc['se'] > 0)
         total += len(scs)
 
+        # ---- stdin redirections (sources) ----
+        scs = stream.stdin_scenarios(ctx.tier)
+        for sc in scs:
+            for clause, kind, detail in stream.replay_stdin(rp.h, sc):
+                ctx.violation({'module': 'Redirect', 'clause': clause,
+                               'source': kind},
+                              f'{detail}; scenario {sc}',
+                              replay={'kind': 'stdin', 'scenario': sc})
+            ctx.count('stdin:' + json.dumps(sc, sort_keys=True),
+                      sc['size'] > 0)
+        total += len(scs)
+
         # ---- TLC generated cases ----
-        plan = [('tab_rfl9', 4500, 2), ('tab_rfl2', 4500, 2),
-                ('tab_dfl', 4000, 3),
-                ('tab_marks', 3000, 1),
-                ('sim_two', 2200, 1), ('sim_marks', 2200, 1),
-                ('sim_proc', 1800, 1), ('sim_redir', 1800, 1)]
+        plan = [('tab_rfl9', 4000, 2), ('tab_rfl2', 3000, 2),
+                ('tab_dfl', 2500, 3),
+                ('tab_marks', 2500, 1),
+                ('sim_two', 1500, 1), ('sim_marks', 1500, 1),
+                ('sim_proc', 1200, 1), ('sim_redir', 1200, 1)]
         for world, cap, stride in plan:
             tw = time.time()
             job = futs[world].result()
